@@ -38,6 +38,9 @@ type Config struct {
 	AmzDate      bool         `json:"amzDate,omitempty"`    // requests carry x-amz-date with the simulated clock's current time (always within the skew limit)
 	DirOrder     bool         `json:"dirOrder,omitempty"`   // the simulated disk hands out directory entries in hash order, not by name
 	LateEOF      bool         `json:"lateEOF,omitempty"`    // request bodies report EOF in a separate read (HTTP/2, buffering middleware)
+	LinKeys      []string     `json:"linKeys,omitempty"`    // C07 snapshot runs: the keys of the run
+	LinSnap      bool         `json:"linSnap,omitempty"`    // C07: all keys of the run form one partition, so that a listing is held to one instant across keys
+	LinFill      int          `json:"linFill,omitempty"`    // C07: filler objects 'bulk/NNNNN' stored by set-up (a listing walks over them between the keys of the run)
 	LinSetVer    bool         `json:"linSetVer,omitempty"`  // C07: a never-versioned bucket gets versioning enabled by one of the clients during the run
 	LinUploads   [][2]string  `json:"linUploads,omitempty"` // (bucket, key) of multipart uploads initiated by setup (C07)
 }
